@@ -31,7 +31,12 @@ ASSUMPTIONS = ['the transliteration keeps the ACCESS word as MAX-ACCESS value an
                'IF-MIB, IP-MIB, TCP-MIB, UDP-MIB, SNMPv2-MIB are not available offline: replacements pointing there are checked at genImports level only']
 
 SMIV1_ONLY = ('RFC1065-SMI', 'RFC1155-SMI', 'RFC1158-MIB', 'RFC-1212', 'RFC-1215')
-JSON_TYPE_MAP = {'Counter': 'Counter32', 'Gauge': 'Gauge32', 'NetworkAddress': 'IpAddress'}
+JSON_TYPE_MAP = {}      # (was a tolerance for the SMIv1 spellings Counter / Gauge the JSON document kept: repaired in /repo)
+
+# ground truth from the RFCs, not from the table: the scalars of the ip group of RFC 1213, all of which RFC 2011 / 4293 carry on in IP-MIB
+RFC1213_IP_SCALARS = ['ipForwarding', 'ipDefaultTTL', 'ipInReceives', 'ipInHdrErrors', 'ipInAddrErrors', 'ipForwDatagrams', 'ipInUnknownProtos',
+                      'ipInDiscards', 'ipInDelivers', 'ipOutRequests', 'ipOutDiscards', 'ipOutNoRoutes', 'ipReasmTimeout', 'ipReasmReqds', 'ipReasmOKs',
+                      'ipReasmFails', 'ipFragOKs', 'ipFragFails', 'ipFragCreates', 'ipRoutingDiscards']
 SKIP_CALLS = ('setStatus', 'setDescription', 'setReference', 'setUnits')
 
 
@@ -196,6 +201,14 @@ def run(ctx):
     from pysmi.codegen.intermediate import IntermediateCodeGen
     from pysmi.codegen.symtable import SymtableCodeGen
     table = AbstractCodeGen.convertImportv2
+    for sym in RFC1213_IP_SCALARS:
+        res.case(('rfc1213-ip', sym), True)
+        res.count('rfc1213-ip-scalars')
+        out, mods = IntermediateCodeGen().genImports({'RFC1213-MIB': [sym]})
+        em = {k: list(v) for k, v in out['imports'].items() if k != 'class'}
+        if em.get('IP-MIB') != [sym] or 'RFC1213-MIB' in em:        # (the generators add their constant imports)
+            res.oracle_failures.append({'key': 'v2-home-missing', 'what': '%s imported from RFC1213-MIB comes out as %r; its SMIv2 home is IP-MIB' % (sym, em),
+                                        'input': {'imports': {'RFC1213-MIB': [sym]}, 'expect_home': {'IP-MIB': [sym]}}})
     dicts = []
     for m, syms in table.items():
         for s in syms:
@@ -273,6 +286,8 @@ def replay(payload):
         if 'expect_kept' in inp:
             m, s = inp['expect_kept']
             return {'fails': s not in em.get(m, [])}
+        if 'expect_home' in inp:
+            return {'fails': any(list(em.get(m, [])) != v for m, v in inp['expect_home'].items()) or any(m in em for m in inp['imports'])}
         for m, syms in inp['imports'].items():
             for s in syms:
                 want = inp.get('expect', {}).get(m + '/' + s) or (table.get(m, {}).get(s))
